@@ -179,8 +179,19 @@ func (d *Decoder) decodeSet(mem MemCache, msg *Message) error {
 		}
 	}
 
-	// the next set should be greater than 4 bytes otherwise that's padding
-	for err == nil && setHeader.Length > uint16(d.reader.ReadCount()-startCount) && d.reader.Len() > 4 && setHeader.Length-uint16(d.reader.ReadCount()-startCount) > 4 {
+	// whatever is left in a set and is shorter than one record is padding: for a data set that is
+	// the template's minimum record length, for a template set it stays at up to 4 bytes
+	minLen := 5
+	if setHeader.SetID > 255 && err == nil {
+		if minLen = tr.minRecordLength(); minLen == 0 {
+			err = nonfatalError{fmt.Errorf("%s ipfix template id# %d describes zero-length records",
+				d.raddr.String(),
+				setHeader.SetID,
+			)}
+		}
+	}
+
+	for err == nil && int(setHeader.Length)-(d.reader.ReadCount()-startCount) >= minLen && d.reader.Len() >= minLen {
 		if setID := setHeader.SetID; setID == 2 || setID == 3 {
 			// Template record or template option record
 
@@ -477,6 +488,24 @@ func (tr *TemplateRecord) unmarshalOpts(r *reader.Reader) error {
 		tr.FieldSpecifiers = append(tr.FieldSpecifiers, tf)
 	}
 	return nil
+}
+
+// minRecordLength returns the least number of bytes a data record of this template occupies
+// (a variable-length field takes at least its one-byte length prefix)
+func (tr *TemplateRecord) minRecordLength() int {
+	var n int
+
+	for _, specs := range [][]TemplateFieldSpecifier{tr.ScopeFieldSpecifiers, tr.FieldSpecifiers} {
+		for _, f := range specs {
+			if f.Length == 65535 {
+				n++
+			} else {
+				n += int(f.Length)
+			}
+		}
+	}
+
+	return n
 }
 
 func (d *Decoder) getDataLength(fieldSpecifierLen uint16, t FieldType) (uint16, error) {
